@@ -82,7 +82,7 @@ func (s *Scenario) ProjFile() string {
 
 func (s *Scenario) explorer(deadline time.Time, counters, maxima map[string]int) *explore.Explorer {
 	return &explore.Explorer{
-		Bound: s.Bound, Cache: true, MaxViol: 1, Deadline: deadline,
+		Bound: s.Bound, Cache: true, MaxViol: 1, Deadline: deadline, Tick: drv.Tick,
 		Root: s.Root,
 		Cfg: func(x *rt.Exec) {
 			x.LibPrefix = LibPrefix
